@@ -12,6 +12,10 @@
 //   idx <id> <n> i…      bools <id> <rank> d… b…      iview <wid> <vid> sel…   (sel: i<idx id> | a | n<k>)
 //   asg|cadd|csub|cmul|cdiv v<l> <expr>     sca v<l> <int>     whr v<l> <mask> ; <wrhs>     weo v<l> <mask> ; <wrhs> ; <wrhs>
 //   fasg|fcadd|fcmul f<aid> <expr>          statements on the FixedArray object itself
+//   wcadd|wcsub|wcmul|wcdiv v<l> <mask> ; <wrhs>          A.where(mask) OP= rhs   (where.h ADEPT_WHERE_OPERATOR; see drv_assign_impl.h)
+//   fwhr|fwcadd|fwcmul f<aid> <mask> ; <wrhs>             F.where(mask) = / += / *= rhs on the FixedArray object
+//   fweo f<aid> <mask> ; <wrhs> ; <wrhs>                  F.where(mask) = either_or(c, d)
+//   ilst v<l> | filst f<aid> | iilst w<id>  <nrows> <n0> x.. <n1> x.. ..    target = {x..} (rank 1) / {{..},{..}} (rank 2)
 //   iasg|icadd|icsub|icmul w<id> <expr>     isca w<id> <int>
 //   red|redd|redb|reddb|find|minloc|maxloc|dot …      (see lean/Driver/Assign.lean)
 //   dump <aid>                              -> "D x…" raw image
@@ -180,9 +184,9 @@ template <class T> static int run() {
         // rank of the target / argument
         int r = 0;
         if (w.size() >= 2) {
-          if ((op == "asg" || op == "asge" || op == "cadd" || op == "csub" || op == "cmul" || op == "cdiv" || op == "sca" || op == "whr" || op == "weo") && W.views.count(idof(w[1]))) r = W.views[idof(w[1])].rank;
-          else if ((op == "iasg" || op == "icadd" || op == "icsub" || op == "icmul" || op == "isca") && W.iviews.count(idof(w[1]))) r = W.iviews[idof(w[1])].krank;
-          else if ((op == "fasg" || op == "fcadd" || op == "fcmul") && W.allocs.count(idof(w[1]))) r = W.allocs[idof(w[1])].fkind == 4 ? 1 : W.allocs[idof(w[1])].fkind == 234 ? 3 : 2;
+          if ((op == "asg" || op == "asge" || op == "asgi" || op == "cadd" || op == "csub" || op == "cmul" || op == "cdiv" || op == "sca" || op == "whr" || op == "weo" || op == "wcadd" || op == "wcsub" || op == "wcmul" || op == "wcdiv" || op == "ilst") && W.views.count(idof(w[1]))) r = W.views[idof(w[1])].rank;
+          else if ((op == "iasg" || op == "icadd" || op == "icsub" || op == "icmul" || op == "isca" || op == "iilst") && W.iviews.count(idof(w[1]))) r = W.iviews[idof(w[1])].krank;
+          else if ((op == "fasg" || op == "fcadd" || op == "fcmul" || op == "fwhr" || op == "fwcadd" || op == "fwcmul" || op == "fweo" || op == "filst") && W.allocs.count(idof(w[1]))) r = W.allocs[idof(w[1])].fkind == 4 ? 1 : W.allocs[idof(w[1])].fkind == 234 ? 3 : 2;
           else if (op == "red" || op == "redd" || op == "redb" || op == "reddb" || op == "find" || op == "minloc" || op == "maxloc" || op == "dot") {
             Tok t; t.w = w; t.p = (op == "red" || op == "redb") ? 2 : (op == "redd" || op == "reddb") ? 3 : 1;
             Shape sh;
